@@ -176,4 +176,48 @@ CLAIMS.update({
         design="4/C14"),
 })
 
+CLAIMS.update({
+    "C02": dict(
+        technique="exact finite-Markov-chain oracle in TLA+ with big-integer arithmetic (BigInt.tla, Check_C02.tla): TLC "
+                  "verifies a Poisson-equation certificate exactly, recomputes D and compares the transported result; "
+                  "plus GF-calculator agreement (Check_Rel.tla)",
+        text="Dyadic energies/prefactors make every rate rational and every jump vector an integer vector in grid "
+             "coordinates; the harness's fraction solve is untrusted (TLC checks Q eta = b exactly); the exact D covers "
+             "the solve and pinv branches, several Wyckoff sets, disconnected networks; Interstitial.diffusivity must "
+             "agree to 2e-7 and GFCrystalcalc.D to 1e-8.",
+        note="Trusts TLC, BigInt.tla (plain TLA+ limb arithmetic), the projection of jump vectors to grid integers. "
+             "Decides the property on a dyadic input grid (levels 0..3, prefactor exponents 0..2), not on arbitrary reals.",
+        design="4/C02"),
+    "C09": dict(
+        technique="equivalent descriptions (atom permutation, unimodular re-description, non-reduced supercell) with data "
+                  "carried over by Cartesian class matching; equality decided by TLC (Check_Rel.tla)",
+        text="Interstitial D on 7-15 worlds and the four vacancy-mediated tensors on 4-9 worlds (site/jump-class data, "
+             "LIMB interactions), descriptions built with noreduce=True in the same Cartesian frame (rigid re-centring "
+             "allowed).",
+        note=_REL_NOTE + " Vacancy tolerance 5e-5 for sheared/supercell descriptions (coarser k-mesh), 2e-6 for "
+                         "permutations; binding-energy data beyond site/jump classes are not carried over.",
+        design="4/C09"),
+})
+
+CLAIMS.update({
+    "C24": dict(
+        technique="definitional pair-state model (Stars.tla: Reach, orbits, + - ^) and object state machine "
+                  "StarSetObj.tla model-checked by TLC; every edge of its state graph replayed on real StarSet objects "
+                  "with full projection of target, operands and bystanders (Check_C24.tla)",
+        text="Generate / RegenerateSameN / Add / IAdd / Copy / CopyEmpty / DiffGenerate histories (ranges 2-4) on 13+ "
+             "worlds (2D/3D, 1-4 site sublattices, with/without origin states, non-percolating networks): states = "
+             "Reach, stars = complete orbits partitioning them, index/indexdict/stateindex/starindex consistent, sum = "
+             "generation with the summed range, difference set contains every endpoint difference.",
+        note=_WORLD_NOTE + " The jump network the library builds (projected to integers) is the input of the model; "
+                           "its own correctness is C21.",
+        design="4/C24"),
+    "C26": dict(
+        technique="definitional omega1/omega2 transition sets (Omega.tla) compared by TLC with the recorded networks "
+                  "of StarSet.jumpnetwork_omega1/2 and VacancyMediated (Check_C26.tla)",
+        text="J1 (vacancy jumps between non-zero states with an endpoint in the thermodynamic set) and J2 (exchanges) "
+             "for N/Nthermo 1-3 on 15+ worlds: every transition in exactly one class, classes are single orbits closed "
+             "under group and reversal, displacement = vacancy displacement, jump types and omegalist consistent.",
+        note=_WORLD_NOTE, design="4/C26"),
+})
+
 NOT_YET ="check not built yet in this round (planned in DESIGN.md section 4)"
